@@ -4,6 +4,7 @@ use ohmc_core::explore::*;
 use ohmc_core::uni::*;
 
 fn main() {
+    ohmc::props::deep::maybe_child::<B>("C15");
     let mut ctx = Ctx::from_args("C15");
     let quick = ctx.quick();
     let fast = ctx.profile == "fast";
@@ -23,6 +24,11 @@ fn main() {
     let mut big = ohmc::props::structured::shapes_at(&sizes, false);
     big.extend(ohmc::props::structured::programs_at(&sizes, false));
     ctx.run_slice(Slice::new(format!("structured-large[sizes {:?}: {} diagrams]", sizes, big.len()), big.len() as u64, |i, loc| check::<B>(&big[i as usize].1, !fast, loc)));
+    // deep diagrams (a dependency chain of tens of thousands of operations), each in a child process on a 2 MiB stack:
+    // the call has to come back, and with the answer known in closed form
+    let deep_sizes: Vec<usize> = if ctx.quick() { vec![30_000] } else { vec![30_000, 100_000] };
+    let deep_cases: Vec<(&str, usize)> = ohmc::props::deep::FAMILIES.iter().flat_map(|f| deep_sizes.iter().map(move |&k| (*f, k))).collect();
+    ctx.run_slice(Slice::new(format!("deep-chains[{:?} operations: chain, chain listed backwards, chain into a 2-cycle, star; one child process each]", deep_sizes), deep_cases.len() as u64, |i, loc| ohmc::props::deep::check_in_child(deep_cases[i as usize].0, deep_cases[i as usize].1, loc)).heavy());
     let meta = Meta {
         rule: "every hypergraph of the listed universes (repeated nodes inside one operation, self-dependence, cycles with tails, zero-arity operations, dependency multiplicities up to 4-9), wrapped as an open hypergraph; layer() and layered_operations() are judged against the definition (any layering with the stated properties is accepted); with the verif-hooks feature converse, operation_adjacency, indegree and kahn are additionally compared with reference loops; run under the checked and the release-like profile; plus structured families of larger diagrams, enumerated completely for every size parameter up to the stated bound and in five numberings (fan-out/fan-in, k parallel operations, chains, stars, cycles with tails, diamonds, multiplicity k, operations whose predecessors sit at depths j and k of a chain, one node read k times)".into(),
         bounds: "quick: <=3 nodes, <=3 operations, arity <=2; thorough adds 4 operations on <=2 nodes, 4 nodes with <=3 operations, 4-5 nodes with 4 unary operations, arity 3 with 2 operations".into(),
